@@ -33,7 +33,7 @@ MANIFEST = {
                  'two-thread schedules with bounded preemptions; oracle = handler observations and responses equal the lone run',
     'text': 'All histories up to depth 2 (quick) / 3 (thorough) over 39 operations, and up to depth 3 / 4 over the 14 error / creation operations, on applications A, B and the default '
             'application, and all schedules with <=1 (quick) / <=2 (thorough) preemptions of A- and B-requests on two threads, '
-            'are executed; each observation of app.request / app.response must show the application\'s own request.',
+            'are executed; each observation of app.request / app.response must show the application\'s own request. Every application registers a before_request hook for itself (the hook log must equal the served sequence); handlers re-read their body around nested requests with bodies; chunked forms and private status codes are part of the menu.',
     'note': 'Bounds: 3 applications, history depth and preemption bound as stated. Trusted: vf/sched.py, the fresh-import loader.',
 }
 
